@@ -349,6 +349,11 @@ def run(ctx):
     import ext_svclist
     ext_svclist.run(ctx)
 
+    # extension: sessions in a deployment of several servers (Federation.tla, hosted by C15): in C19's scope is
+    # what the client session does - the list it keeps, the connections it pools per service server
+    import ext_federation
+    ext_federation.run(ctx, "C19")
+
     ctx.extra["explanation"] = (
         "exhaustive TLC check of Session.client + SelectEndPoint (address lists, dial / authenticate / connected "
         "address, pool keyed by the connected address, closer registered in its own step, connection loss, explicit "
